@@ -4,6 +4,7 @@ import (
 	"bytes"
 	"encoding/hex"
 	"fmt"
+	"math"
 	"math/rand"
 	"sort"
 
@@ -25,6 +26,15 @@ func genMergeCase(r *rand.Rand) mergeCase {
 	nIn := 1 + r.Intn(9)
 	pool := gen.KeySet(r, 2+r.Intn(14), 6)
 	var inputs [][]KV
+	// a third of the cases draws versions from the whole 64-bit range (boundary ladder, small and
+	// uniformly random values: versions of one key may be 2^63 or more apart)
+	wide := r.Intn(3) == 0
+	ver := func() uint64 {
+		if wide {
+			return gen.Version(r)
+		}
+		return uint64(r.Intn(4))
+	}
 	for i := 0; i < nIn; i++ {
 		m := map[string]KV{}
 		n := r.Intn(12)
@@ -32,7 +42,7 @@ func genMergeCase(r *rand.Rand) mergeCase {
 			n = 0 // empty input
 		}
 		for j := 0; j < n; j++ {
-			k := y.KeyWithTs(pool[r.Intn(len(pool))], uint64(r.Intn(4)))
+			k := y.KeyWithTs(pool[r.Intn(len(pool))], ver())
 			m[string(k)] = KV{Key: k, Val: y.ValueStruct{Value: []byte{byte(i)}, Meta: byte(j)}}
 		}
 		var in []KV
@@ -57,13 +67,16 @@ func genMergeCase(r *rand.Rand) mergeCase {
 	mc := mergeCase{inputs: inputs, merged: merged, rev: r.Intn(2) == 0}
 	for _, kv := range merged {
 		uk, ts := y.ParseKey(kv.Key), y.ParseTs(kv.Key)
-		mc.seekers = append(mc.seekers, kv.Key, y.KeyWithTs(uk, ts+1))
+		mc.seekers = append(mc.seekers, kv.Key)
+		if ts < math.MaxUint64 {
+			mc.seekers = append(mc.seekers, y.KeyWithTs(uk, ts+1))
+		}
 		if ts > 0 {
 			mc.seekers = append(mc.seekers, y.KeyWithTs(uk, ts-1))
 		}
 	}
 	for i := 0; i < 6; i++ {
-		mc.seekers = append(mc.seekers, y.KeyWithTs(gen.Key(r, 7), uint64(r.Intn(5))))
+		mc.seekers = append(mc.seekers, y.KeyWithTs(gen.Key(r, 7), ver()))
 	}
 	return mc
 }
@@ -90,7 +103,7 @@ func (mc mergeCase) describe() map[string]any {
 
 // C21 compares table.MergeIterator with a reference merge (sorted union, earliest input wins).
 func C21(c *core.Ctx) {
-	c.Rule("random cases: 1-9 sorted inputs (some empty) over 2-15 hostile user keys x versions 0-3 with heavy duplication; " +
+	c.Rule("random cases: 1-9 sorted inputs (some empty) over 2-15 hostile user keys x versions 0-3 with heavy duplication (a third of the cases: versions from the whole 64-bit range, boundary values included); " +
 		"for each: full traversal after Rewind, Seek from every key and key+-1 version and random keys, then a random walk of " +
 		"Seek/Next/Rewind compared with a reference cursor; distinct = (numInputs, direction, has-empty-input, has-duplicates) classes")
 	r := c.Rand("c21")
